@@ -377,18 +377,18 @@ Definition unconstrain (v : nat) (s : sys) : sys := elim_sys v s.
 Theorem unconstrain_spec v s q : sat_sys (unconstrain v s) q <-> exists w, sat_sys s (upd q v w).
 Proof. unfold unconstrain. symmetry. apply elim_sys_exact. Qed.
 
-Definition unconstrain_set (vs : list nat) (s : sys) : sys := elim_vars vs s.
+Definition unconstrain_set (vs : list nat) (s : sys) : sys := elim_set vs s.
 Theorem unconstrain_set_spec vs s q :
   sat_sys (unconstrain_set vs s) q <-> exists p, (forall i, ~ In i vs -> p i == q i) /\ sat_sys s p.
-Proof. unfold unconstrain_set. symmetry. apply elim_vars_exact. Qed.
+Proof. unfold unconstrain_set. symmetry. apply elim_set_exact. Qed.
 
 (* remove_higher_space_dimensions: project on the first k coordinates *)
-Definition remove_higher (k n : nat) (s : sys) : sys := elim_vars (seq k (n - k)) s.
+Definition remove_higher (k n : nat) (s : sys) : sys := elim_set (seq k (n - k)) s.
 Theorem remove_higher_spec k n s q :
   sat_sys (remove_higher k n s) q <->
   exists p, (forall i, (i < k \/ n <= i)%nat -> p i == q i) /\ sat_sys s p.
 Proof.
-  unfold remove_higher. rewrite <- elim_vars_exact. split; intros [p [H1 H2]]; exists p; (split; [|exact H2]).
+  unfold remove_higher. rewrite <- elim_set_exact. split; intros [p [H1 H2]]; exists p; (split; [|exact H2]).
   - intros i Hi. apply H1. rewrite in_seq. lia.
   - intros i Hi. apply H1. rewrite in_seq in Hi. lia.
 Qed.
@@ -513,12 +513,12 @@ Definition pf_apply (pf : list (option nat)) (junk : nat) (i : nat) : nat :=
 Definition unmapped (pf : list (option nat)) : list nat :=
   filter (fun i => match nth i pf None with Some _ => false | None => true end) (seq 0 (length pf)).
 Definition map_dims (pf : list (option nat)) (junk : nat) (s : sys) : sys :=
-  rename_sys (pf_apply pf junk) (elim_vars (unmapped pf) s).
+  rename_sys (pf_apply pf junk) (elim_set (unmapped pf) s).
 
 Theorem map_dims_spec pf junk s q :
   sat_sys (map_dims pf junk s) q <->
   exists p, (forall i, ~ In i (unmapped pf) -> p i == q (pf_apply pf junk i)) /\ sat_sys s p.
-Proof. unfold map_dims. rewrite rename_sys_spec. symmetry. apply elim_vars_exact. Qed.
+Proof. unfold map_dims. rewrite rename_sys_spec. symmetry. apply elim_set_exact. Qed.
 
 (* expand_space_dimension v m: each new coordinate n+j is a copy of x_v *)
 Fixpoint expand (v n m : nat) (s : sys) : sys :=
